@@ -56,6 +56,7 @@ NewStream == [sent |-> 0, granted |-> 0, grantedE |-> 0, arrived |-> 0, consumed
               committed |-> <<>>, delivered |-> <<>>, rcur |-> <<>>, rchunk |-> FALSE, eos |-> FALSE,
               finE |-> FALSE, closeE |-> FALSE, rfinE |-> FALSE, finD |-> FALSE, closeD |-> FALSE, rfinD |-> FALSE,
               closeP |-> FALSE, rfinP |-> FALSE, cls |-> "open"]
+Ensure(f, k) == IF k \in DOMAIN f THEN f ELSE f @@ (k :> NewStream)
 Misc0 == [allDropped |-> FALSE, faulted |-> FALSE, apiPairs |-> {}, lfin |-> {}]
 Inc(c, k) == Put(c, k, Get(c, k, 0) + 1)
 
@@ -155,7 +156,8 @@ EmitMsg(d) ==
                    <<<<d, m.server>> \in DOMAIN pair, "C07", "server port number already in use by an open port">>>>) IN
             /\ reqs' = Put(reqs, q, [state |-> "accepted", via |-> Get(reqs, q, [via |-> "client"]).via])
             /\ pair' = Put(Put(pair, <<d, m.server>>, m.client), <<Oth(d), m.client>>, m.server)
-            /\ st' = Put(Put(st, <<d, m.client>>, NewStream), <<Oth(d), m.server>>, NewStream)
+            \* (a stream may already exist: the accepting side can use the port before its PortOpened leaves a blocked transport)
+            /\ st' = Ensure(Ensure(st, <<d, m.client>>), <<Oth(d), m.server>>)
             /\ bad' = IF why = <<>> THEN bad ELSE Flag(why[1], why[2])
             /\ UNCHANGED hdrE
       [] m.k = "Rejected" ->
@@ -235,14 +237,20 @@ WireDrop ==
 SendKinds == {"send", "try_send", "send_chunks", "connect"}
 RecvKinds == {"recv_any", "recv_chunk"}
 PortKinds == SendKinds \cup RecvKinds \cup {"close", "closed"}
+\* remote port of a local port: from the wire (PortOpened) or, while that frame is still queued behind transport
+\* back-pressure, from what the API returned for the accepted / connected port
+RemoteOf(ep, port) == IF <<ep, port>> \in DOMAIN pair THEN pair[<<ep, port>>]
+                      ELSE IF \E t \in misc.apiPairs : t[1] = ep /\ t[2] = port THEN (CHOOSE t \in misc.apiPairs : t[1] = ep /\ t[2] = port)[3]
+                      ELSE <<>>
 \* stream an operation works on
-OpStream(o) == IF o.kind \in SendKinds \cup {"closed"} THEN <<o.ep, Get(pair, <<o.ep, o.port>>, <<>>)>> ELSE <<Oth(o.ep), o.port>>
+OpStream(o) == IF o.kind \in SendKinds \cup {"closed"} THEN <<o.ep, RemoteOf(o.ep, o.port)>> ELSE <<Oth(o.ep), o.port>>
 
 ApiStart ==
     /\ Is("api_start")
     /\ LET k == IF Ev.kind \in PortKinds THEN OpStream(Ev) ELSE <<>>
            s == Get(st, k, NewStream)
-           o == IF Ev.kind \in SendKinds THEN Ev @@ [afterClose |-> s.closeP, afterRfin |-> s.rfinP] ELSE Ev IN
+           over == Has("override") /\ Ev.override
+           o == IF Ev.kind \in SendKinds THEN [afterClose |-> s.closeP /\ ~over, afterRfin |-> s.rfinP, over |-> over] @@ Ev ELSE Ev IN
        ops' = Put(ops, Ev.op, o @@ [afterEnd |-> ended[Ev.ep] # "running"])
     /\ pend' = pend \cup {Ev.op}
     /\ UNCHANGED <<cfg, fly, hdrE, hdrD, pair, st, reqs, poolKey, lastPool, ended, gone, cnt, misc, bad>>
@@ -251,8 +259,9 @@ ApiStart ==
 SendVerdict(o, s) ==
     First(<<<<Ev.res = "ok" /\ o.afterRfin, "C11", "send succeeded although the receiver was already known to be dropped">>,
             <<Ev.res = "ok" /\ o.afterClose, "C11", "send succeeded although the receiver was already known to be closed">>,
-            <<Ev.res = "err" /\ Ev.err = "closed_graceful" /\ s.cls # "graceful", "C11", "send failed as gracefully closed but the receiver was not closed gracefully">>,
-            <<Ev.res = "err" /\ Ev.err = "closed_dropped" /\ s.cls # "dropped", "C11", "send failed as dropped but the receiver was not dropped (or was closed gracefully first)">>,
+            <<Ev.res = "err" /\ Ev.err = "closed_graceful" /\ ~s.closeP, "C11", "send failed as gracefully closed but the receiver was not closed gracefully">>,
+            <<Ev.res = "err" /\ Ev.err = "closed_graceful" /\ o.over, "C11", "send with graceful-close override failed as gracefully closed">>,
+            <<Ev.res = "err" /\ Ev.err = "closed_dropped" /\ ~s.rfinP, "C11", "send failed as dropped but the receiver was not dropped">>,
             <<Ev.res = "err" /\ Ev.err = "chmux" /\ ~misc.faulted /\ ended[o.ep] = "running", "C11", "send failed with a multiplexer error on a healthy connection">>,
             <<Ev.res = "err" /\ Ev.err = "chmux" /\ ~misc.faulted /\ ended[o.ep] = "running", "C06", "send failed with a multiplexer error on a healthy connection">>>>)
 
@@ -269,7 +278,7 @@ ApiDone ==
                   msg == IF o.kind = "connect" THEN [t |-> "ports", n |-> o.n] ELSE [t |-> "data", b |-> o.data]
                   commit == Ev.res = "ok" /\ ~(o.kind = "connect" /\ o.n = 0)
                   v == SendVerdict(o, s)
-                  why == IF k \notin DOMAIN st /\ Ev.res = "ok" /\ Checked("C10") THEN <<"C10", "send completed on a port the wire never opened">> ELSE v IN
+                  why == IF k[2] = <<>> /\ Ev.res = "ok" /\ Checked("C10") THEN <<"C10", "send completed on a port that neither the wire nor the API ever opened">> ELSE v IN
               /\ st' = IF commit THEN Put(st, k, [s EXCEPT !.committed = Append(@, msg)]) ELSE st
               /\ bad' = IF why = <<>> THEN bad ELSE Flag(why[1], why[2])
               /\ UNCHANGED <<cnt, misc>>
@@ -339,6 +348,10 @@ ApiPanic ==
 \* ------------------------------------------------------------------ quiescence: liveness verdicts
 Waiting(k) == \E i \in pend : ops[i].kind \in RecvKinds /\ OpStream(ops[i]) = k
 Sending(k) == \E i \in pend : ops[i].kind \in SendKinds /\ OpStream(ops[i]) = k
+OverSending(k) == \E i \in pend : ops[i].kind \in SendKinds /\ OpStream(ops[i]) = k /\ ops[i].over
+PendConn(e) == Cardinality({i \in pend : ops[i].kind = "client_connect" /\ ops[i].ep = e /\ ops[i].wait})
+PendAccept(e) == \E i \in pend : ops[i].kind = "accept" /\ ops[i].ep = e
+Unanswered(e) == Cardinality({q \in DOMAIN reqs : q[1] = e /\ reqs[q].state = "open" /\ reqs[q].via = "client"})
 WatchingClosed(k) == \E i \in pend : ops[i].kind = "closed" /\ OpStream(ops[i]) = k
 PoolOf(k) == LET p == Get(pair, <<Oth(k[1]), k[2]>>, <<>>)  key == Get(poolKey, <<k[1], p>>, 0) IN Get(lastPool, key, 0 - 1)
 PairsOK == \A t \in misc.apiPairs : Get(pair, <<t[1], t[2]>>, <<>>) = t[3]
@@ -350,11 +363,17 @@ Quiescent ==
            leak == {k \in DOMAIN st : ~Sending(k) /\ PoolOf(k) >= 0 /\ ~st[k].closeE /\ ~st[k].rfinE
                                       /\ PoolOf(k) # cfg[Oth(k[1])].rbuf - (st[k].sent - st[k].granted)}
            \* receiver side: every credit amount the returner decided to return has reached the wire
-           rleak == {k \in DOMAIN st : ~st[k].rfinE /\ <<Oth(k[1]), k[2], "mon">> \in DOMAIN poolKey
+           rleak == {k \in DOMAIN st : Waiting(k) /\ ~st[k].rfinE /\ <<Oth(k[1]), k[2], "mon">> \in DOMAIN poolKey
                                        /\ Get(lastPool, poolKey[<<Oth(k[1]), k[2], "mon">>], 0) # st[k].grantedE}
            noeos == {k \in DOMAIN st : Waiting(k) /\ st[k].finD}
            noclosed == {k \in DOMAIN st : WatchingClosed(k) /\ (st[k].closeD \/ st[k].rfinD)}
-           deadsend == {k \in DOMAIN st : Sending(k) /\ (st[k].closeD \/ st[k].rfinD)}
+           deadsend == {k \in DOMAIN st : Sending(k) /\ ~OverSending(k) /\ (st[k].closeD \/ st[k].rfinD)}
+           overstuck == {k \in DOMAIN st : OverSending(k) /\ Waiting(k) /\ st[k].closeD /\ ~st[k].rfinD /\ ~st[k].rfinE}
+           fp == IF Has("free_ports") THEN Ev.free_ports ELSE <<FALSE, FALSE>>
+           heldN == IF Has("held") THEN Ev.held ELSE <<0, 0>>
+           connStuck == {e \in {1, 2} : fp[e] /\ PendConn(e) > Unanswered(e) /\ Unanswered(e) < cfg[Oth(e)].connect_q /\ ended[e] = "running"}
+           connDead == {e \in {1, 2} : fp[e] /\ e \in misc.lfin /\ ended[e] = "running" /\ \E i \in pend : ops[i].kind = "client_connect" /\ ops[i].ep = e}
+           accStuck == {e \in {1, 2} : fp[e] /\ PendAccept(e) /\ Unanswered(Oth(e)) > heldN[e] /\ ended[e] = "running"}
            settled == Has("settled") /\ Ev.settled
            live == ~misc.faulted /\ ~Has("late")     \* liveness verdicts apply (healthy transport, main quiescence point)
            why == First(<<<<settled /\ pend # {}, "C06", "operation still pending after the transport failed and the timeout elapsed">>,
@@ -366,6 +385,10 @@ Quiescent ==
                           <<live /\ noeos # {}, "C11", "receiver still waiting although the sender's finish was delivered">>,
                           <<live /\ noclosed # {}, "C11", "closed() still pending although the receiver's close/finish was delivered">>,
                           <<live /\ deadsend # {}, "C11", "send still pending although the receiver's close/finish was delivered">>,
+                          <<live /\ overstuck # {}, "C11", "send with graceful-close override still pending although the closed receiver keeps receiving">>,
+                          <<live /\ connStuck # {}, "C10", "connect still waiting although a local port and a request slot are free">>,
+                          <<live /\ connDead # {}, "C10", "connect still pending although the remote listener is known to be gone">>,
+                          <<live /\ accStuck # {}, "C10", "listener does not accept although a request is queued and a port is free">>,
                           <<live /\ ~PairsOK, "C10", "accepted port pair differs from the pairing on the wire">>>>) IN
        bad' = IF why = <<>> THEN bad ELSE Flag(why[1], why[2])
     /\ UNCHANGED <<cfg, fly, hdrE, hdrD, pair, st, ops, pend, reqs, poolKey, lastPool, ended, gone, cnt, misc>>
@@ -412,7 +435,7 @@ Tasks ==
     /\ LET open == {q \in DOMAIN reqs : reqs[q].state = "open"} IN
        LET why == First(<<<<Ev.alive # 0, "C07", "background tasks left behind after shutdown">>,
                           <<Ev.alive # 0, "C06", "background tasks left behind after shutdown">>,
-                          <<open # {} /\ ~misc.faulted, "C10", "port-open request never resolved on the wire">>>>) IN
+                          <<FALSE, "C10", "unused">>>>) IN
        bad' = IF why = <<>> THEN bad ELSE Flag(why[1], why[2])
     /\ UNCHANGED <<cfg, fly, hdrE, hdrD, pair, st, ops, pend, reqs, poolKey, lastPool, ended, gone, cnt, misc>>
 
